@@ -300,6 +300,19 @@ pub fn run(seed: u64, count: usize, thorough: bool, out: &mut Out) {
             }
         }
     }
+    // every kind of term on its own and negated, several parameter draws each, on a series of structures (a term that is
+    // wrong for one parameter value only - an absent insertion code, an empty range - is met whatever the random trees hold)
+    for _ in 0..(if thorough { 60 } else { 20 }) {
+        let p = structure(&mut rng);
+        let psx = snap::pdb(&p, &snap::atom);
+        for k in 0..22usize {
+            for _ in 0..3 {
+                let q = term(&mut rng, k);
+                emit(out, &p, &psx, "pdb", &[0, 0, 0, 0], &q, "single-term");
+                emit(out, &p, &psx, "pdb", &[0, 0, 0, 0], &not(q), "single-term-negated");
+            }
+        }
+    }
     // random structures x random trees up to depth 7
     for _ in 0..count {
         let p = structure(&mut rng);
